@@ -45,7 +45,6 @@ func newInfluxDBOutNode(et *ExecutingTask, n *pipeline.InfluxDBOutNode, d NodeDi
 		batchBuffer: new(edge.BatchBuffer),
 	}
 	in.node.runF = in.runOut
-	in.node.stopF = in.stopOut
 	in.wb.i = in
 	return in, nil
 }
@@ -93,7 +92,13 @@ func (n *InfluxDBOutNode) runOut([]byte) error {
 			edge.NewTimedForwardReceiver(n.timer, n),
 		),
 	)
-	return consumer.Consume()
+	err := consumer.Consume()
+	// All incoming data has been consumed, only now is it safe to flush
+	// what is still buffered and stop the write buffer.
+	// Doing so when the stop is requested drops the data still queued on the incoming edge.
+	n.wb.flush()
+	n.wb.abort()
+	return err
 }
 
 func (n *InfluxDBOutNode) BeginBatch(begin edge.BeginBatchMessage) (edge.Message, error) {
@@ -142,11 +147,6 @@ func (n *InfluxDBOutNode) DeleteGroup(d edge.DeleteGroupMessage) (edge.Message, 
 	return d, nil
 }
 func (n *InfluxDBOutNode) Done() {}
-
-func (n *InfluxDBOutNode) stopOut() {
-	n.wb.flush()
-	n.wb.abort()
-}
 
 func (n *InfluxDBOutNode) write(db, rp string, batch edge.BufferedBatchMessage) error {
 	if n.i.Database != "" {
